@@ -173,7 +173,8 @@ def rule_go_keywords(ctx):
     b = ctx.body("uci::uci_command::UCICommand::parse_go")
     sym = ctx.sym(b)
     table = {}
-    allowed = ("::branch", "::map_err", "::parse", "::ok_or", "::ok_or_else", "]>::get", "::deref", "::index", "::copied", "::from_residual", "::as_str", "::trim")
+    allowed = ("::branch", "::map_err", "::parse", "::ok_or", "::ok_or_else", "]>::get", "::deref", "::index", "::copied", "::from_residual", "::as_str", "::trim",
+               "Iterator>::next", "Iterator::next", "]>::iter", "::copied", "::cloned", "::peekable", "::peek", "::skip", "::into_iter")
     errs = ("fmt::format", "Arguments::new", "Argument::new_display", "hint::must_use", "::to_string", "String::from", "::from", "::into", "Arguments::from_str", "from_str_nonconst", "::to_owned")
     for bi, t in b.calls():
         c = strip_generics(t.get("callee") or "")
